@@ -371,6 +371,38 @@ def run(chk):
             chk.model_drift(f"Trace_Pipeline consumed {matched}/{len(events)} events of the run with repeated deliveries")
         else:
             chk.traces += 1
+    # the state of the output location (MC_C06_prior): the same tree generated into locations whose files hold every kind of prior content
+    pres = common.run_tlc("MC_C06_prior", cfg="MC_C06_prior", workers=2, timeout=300)
+    chk.add_tlc("MC_C06_prior", pres)
+    if not pres.replays:
+        raise ToolError("MC_C06_prior produced no cases")
+    ptree = {"a/src/lib.rs": "/// Account\n#[typeshare]\npub struct Account { pub id: u32, pub name: Option<String> }\n#[typeshare]\npub enum Kind { A, B }\n",
+             "b/src/lib.rs": "#[typeshare]\npub struct Order { pub n: u32 }\n#[typeshare]\npub type Names = Vec<String>;\n"}
+    pd = os.path.join(work, "prior")
+    cli.make_tree(os.path.join(pd, "src_root"), ptree)
+    fresh = {}
+    for c in sorted(pres.replays, key=lambda c: (c["prior"] != "absent", c["prior"], c["mode"], c["lang"])):
+        key = (c["mode"], c["lang"])
+        tag = f"{c['prior']}_{c['mode']}_{c['lang']}"
+        out = os.path.join(pd, f"out_{tag}")
+        if c["prior"] != "absent":
+            if key not in fresh:
+                continue
+            for rel, data in fresh[key].items():
+                cut = data.find(b"\n", len(data) // 2) + 1
+                prior = {"empty": b"", "cut_at_line": data[:cut], "cut_mid_line": data[:max(1, cut - 3)], "one_byte": data[:1],
+                         "longer": data + b"// more\nclass Tail {}\n", "same": data, "other": b"unrelated text\n"}[c["prior"]]
+                os.makedirs(os.path.dirname(os.path.join(out, rel)), exist_ok=True)
+                with open(os.path.join(out, rel), "wb") as f:
+                    f.write(prior)
+        r, sha, out = run_once(pd, c["lang"], c["mode"], {}, tag)
+        if r["exit"] != "ok":
+            chk.refused(f"{c['mode']}/prior-{c['prior']}", f"{c['lang']}: typeshare failed into a location with prior content ({c['prior']}): {r['stderr'][-200:].strip()}", {"dim": "prior-output-state", "case": c})
+            continue
+        if c["prior"] == "absent":
+            fresh[key] = {rel: open(os.path.join(out, rel), "rb").read() for rel in cli.snapshot(out)}
+        col.add(f"prior_{c['mode']}_{c['lang']}", sha, {"mode": c["mode"], "dim": "prior-output-state", "features": "prior=" + c["prior"], "lang": c["lang"],
+                                                        "detail": f"output location holds: {c['prior']}", "case": c})
     judge(chk, col)
 
 
